@@ -22,6 +22,7 @@ package cache
 import (
 	"context"
 	"fmt"
+	"strconv"
 	"sync"
 	"time"
 
@@ -317,7 +318,7 @@ func (sc *SchedulerCache) createBindRequest(podInfo *pod_info.PodInfo, nodeName 
 			ReceivedResourceType: string(podInfo.ResourceReceivedType),
 			ReceivedGPU: &schedulingv1alpha2.ReceivedGPU{
 				Count:   int(podInfo.AcceptedResource.GetNumOfGpuDevices()),
-				Portion: fmt.Sprintf("%.2f", podInfo.AcceptedResource.GpuFractionalPortion()),
+				Portion: strconv.FormatFloat(podInfo.AcceptedResource.GpuFractionalPortion(), 'f', -1, 64),
 			},
 			ResourceClaimAllocations: podInfo.ResourceClaimInfo.ToSlice(),
 		},
